@@ -732,7 +732,7 @@ let rec words_of = function
 let is_byte b =
   (&&) (Z.leb Z0 b)
     (Z.ltb b (Zpos (Coq_xO (Coq_xO (Coq_xO (Coq_xO (Coq_xO (Coq_xO (Coq_xO
-      (Coq_xO Coq_xH))))))))))
+      Coq_xH)))))))))
 
 (** val pack_string : coq_Z list -> coq_Z list option **)
 
@@ -2090,12 +2090,18 @@ let eval_body ev evs ex ge e s =
          true, false, true, true, false)), (String ((Ascii (false, true,
          true, true, false, true, true, false)), (String ((Ascii (true,
          false, true, true, false, true, false, false)), (String ((Ascii
-         (false, true, false, false, false, true, true, false)), (String
-         ((Ascii (true, false, false, true, true, true, true, false)),
-         (String ((Ascii (false, false, true, false, true, true, true,
-         false)), (String ((Ascii (true, false, true, false, false, true,
-         true, false)),
-         EmptyString))))))))))))))))))))))))))))))))))))))))))))))))))))))))))))))))))))))))))))))))))))))))))))))))))))
+         (true, false, false, false, false, false, true, false)), (String
+         ((Ascii (true, true, false, false, true, false, true, false)),
+         (String ((Ascii (true, true, false, false, false, false, true,
+         false)), (String ((Ascii (true, false, false, true, false, false,
+         true, false)), (String ((Ascii (true, false, false, true, false,
+         false, true, false)), (String ((Ascii (false, false, false, false,
+         false, true, false, false)), (String ((Ascii (false, true, false,
+         false, false, true, true, false)), (String ((Ascii (true, false,
+         false, true, true, true, true, false)), (String ((Ascii (false,
+         false, true, false, true, true, true, false)), (String ((Ascii
+         (true, false, true, false, false, true, true, false)),
+         EmptyString))))))))))))))))))))))))))))))))))))))))))))))))))))))))))))))))))))))))))))))))))))))))))))))))))))))))))))))))
   | EVar x -> read_var ge x s
   | ESub (a, i) ->
     bind (resolve_array ge a s) (fun av s0 ->
